@@ -249,14 +249,16 @@ def _gen_variants(rng, gene, contig_seq, opts):
                 if opts["multiallelic"] == "core":
                     v["force_func"] = w["force_func"] = True  # every alternative of the site is a core variant
     # functional / silent split: at least half functional
-    # (aldy only merges multi-nucleotide substitutions that are core variants,
-    # sam.py `_multi_sites`, so generated MNPs are always functional)
+    # (multi-nucleotide substitutions are functional unless opts["silent_mnp"]: the pinned tree only merged
+    # those that are core variants, sam.py `_multi_sites`)
     ids = list(gene["variants"])
     rng.shuffle(ids)
-    ids.sort(key=lambda k: gene["variants"][k]["kind"] != "mnp")
+    if not opts.get("silent_mnp"):
+        ids.sort(key=lambda k: gene["variants"][k]["kind"] != "mnp")
     nfunc = max(1, (len(ids) + 1) // 2)
     for i, k in enumerate(ids):
-        gene["variants"][k]["func"] = (i < nfunc or gene["variants"][k]["kind"] == "mnp"
+        gene["variants"][k]["func"] = (i < nfunc
+                                       or (gene["variants"][k]["kind"] == "mnp" and not opts.get("silent_mnp"))
                                        or bool(gene["variants"][k].get("edge"))
                                        or bool(gene["variants"][k].get("force_func")))
         gene["variants"][k]["rsid"] = f"rs{1000 + int(k[1:])}" if rng.random() < 0.7 else "-"
